@@ -5414,8 +5414,10 @@ class Parameterized(metaclass=ParameterizedMetaclass):
         self._param__private.initialized = True
 
         self.param._setup_refs(deps)
-        self.param._update_deps(init=True)
+        # (before the on_init methods run: an assignment they make to a
+        # linked parameter is an override like any other)
         self._param__private.refs = refs
+        self.param._update_deps(init=True)
 
     @property
     def param(self) -> Parameters:
